@@ -5,7 +5,7 @@ CONSTANTS
   Gnds = {9, 1}
   Canon = TRUE
   SymKinds = {"R","LP"}
-  Kinds = {"R","LP","DV","AVk","AIk","AVR1"}
+  Kinds = {"R","LP","DV","AVk","AIk","AVR1","CV","CI"}
   Freqs <- FreqsHigh
   NearFreqs <- NearHigh
   Res <- ResDefault
